@@ -226,7 +226,10 @@ func genC15(seed uint64, tier Tier) *Case {
 		c.Steps = append(c.Steps, Step{Kind: "arm", Group: round})
 		for i := 0; i < nb; i++ {
 			if veryTight {
-				// a burst of uniform bulks (about 1.2 KB each on disk) that fills several fractions
+				// a burst of uniform bulks (about 1.2 KB each on disk) that fills several fractions; in half of the
+				// bursts a reader runs next to the writer, so that data providers of the fraction that is being
+				// handed over (and retired) are held while seal, release and deletion interleave
+				var burst, reader []Op
 				for k := 0; k < g.r.Range(6, 14); k++ {
 					op := Op{Kind: "bulk"}
 					g.nextBulk++
@@ -237,7 +240,15 @@ func genC15(seed uint64, tier Tier) *Case {
 						d.Toks = []model.Tok{{F: "k0", V: vocab[g.r.Intn(len(vocab))]}, {F: "svc", V: "alpha"}}
 						op.Docs = append(op.Docs, d)
 					}
-					c.Steps = append(c.Steps, seqStep(op))
+					burst = append(burst, op)
+					reader = append(reader, g.readerOp(), Op{Kind: "sleep", Ms: g.r.Range(1, 15)})
+				}
+				if g.r.Bool(0.5) {
+					c.Steps = append(c.Steps, Step{Kind: "par", Clients: [][]Op{burst, reader}})
+				} else {
+					for _, op := range burst {
+						c.Steps = append(c.Steps, seqStep(op))
+					}
 				}
 				c.Steps = append(c.Steps, Step{Kind: "sleep", Ms: 100}, Step{Kind: "validate", Label: fmt.Sprintf("r%d.b%d", round, i)})
 				continue
@@ -476,6 +487,7 @@ func genC03(seed uint64, tier Tier) *Case {
 	c.Knobs.CacheGCDelayMs = []int{10, 50, 500}[g.r.Intn(3)]
 	c.Oracles.NoErrors = true
 	c.Oracles.CountsStrict = true
+	g.lateDocs = g.r.Bool(0.4)
 	c.Steps = append(c.Steps, Step{Kind: "start"})
 	nb := g.r.Range(2, 8)
 	if tier.Thorough {
